@@ -460,3 +460,48 @@ def size_limit(c):
     c.ensure('refused-iff-too-large', "iff(raised is not None, n > 30)")
     c.ensure('nothing-transmitted-when-refused', "implies(n > 30, len(sent('link.send_packet')) == 0)")
     c.ensure('transmitted-once-otherwise', "implies(n <= 30, len(sent('link.send_packet')) == 1)")
+
+
+# ------------------------------------------------------------------------- the negotiated protocol version the senders switch on
+
+@contract('C08', 'platform.protocol-version', [PLT + ':PlatformService._platform_callback', PLT + ':PlatformService._crt_service_callback',
+                                               PLT + ':PlatformService.fetch_platform_informations', PLT + ':PlatformService.get_protocol_version',
+                                               PLT + ':PlatformService._request_protocol_version'],
+          clause='the protocol version that selects the legacy / new wire layouts is the one the firmware reported in its protocol-version reply and '
+                 'nothing else: other packets on the platform port (firmware-version replies, console / app-channel traffic) do not change it; a '
+                 'Crazyflie that does not implement the link service counts as version -1')
+def protocol_version(c):
+    cf = c.ext('cf')
+    p = c.new(PLT + ':PlatformService', cf)
+    c.let('p', p)
+    done = c.ext('done')
+    c.reset_trace()
+    c.call((p, 'fetch_platform_informations'), done)
+    c.ensure('asks-the-link-service-first', "raised is None and len(sent('cf.send_packet')) == 1 and sent('cf.send_packet')[0][1][0].port == 15 and sent('cf.send_packet')[0][1][0].channel == 1")
+    has_service = c.choice('has_link_service', [True, False])
+    c.reset_trace()
+    if has_service:
+        c.call((p, '_crt_service_callback'), c.new(STK + ':CRTPPacket', (15 << 4) | 1, b'Bitcraze Crazyflie\x00'))
+        c.ensure('asks-for-the-protocol-version', "raised is None and len(sent('cf.send_packet')) == 1 and sent('cf.send_packet')[0][1][0].port == 13 and "
+                 "sent('cf.send_packet')[0][1][0].channel == 1 and bytes(sent('cf.send_packet')[0][1][0].data) == bytes([0]) and len(sent('done')) == 0")
+        c.int('ver', 0, 255)
+        c.call((p, '_platform_callback'), c.new(STK + ':CRTPPacket', (13 << 4) | 1, c.snapshot('vr', 'bytes([0, ver])')))
+        c.ensure('version-is-the-reported-one', "raised is None and p.get_protocol_version() == ver and len(sent('done')) == 1")
+        c.let('expected', c.get('ver'))
+    else:
+        c.call((p, '_crt_service_callback'), c.new(STK + ':CRTPPacket', (15 << 4) | 1, c.ints('junk', 3, 0, 127, kind='bytes')))     # an ASCII echo that is not the magic string
+        c.ensure('no-link-service-means-minus-one', "raised is None and p.get_protocol_version() == -1 and len(sent('done')) == 1")
+        c.let('expected', -1)
+    # later traffic on the platform port that is not a protocol-version reply
+    c.reset_trace()
+    kind = c.choice('later', ['firmware-version-reply', 'platform-command-channel', 'app-channel'])
+    c.int('b0', 1, 255)
+    other = c.bytes('other', 4)
+    if kind == 'firmware-version-reply':
+        pk = c.new(STK + ':CRTPPacket', (13 << 4) | 1, c.snapshot('fw', 'bytes([b0]) + other'))        # command byte != 0
+    elif kind == 'platform-command-channel':
+        pk = c.new(STK + ':CRTPPacket', (13 << 4) | 0, other)
+    else:
+        pk = c.new(STK + ':CRTPPacket', (13 << 4) | 2, other)
+    c.call((p, '_platform_callback'), pk)
+    c.ensure('other-traffic-does-not-change-the-version', "raised is None and p.get_protocol_version() == expected and len(sent('done')) == 0")
